@@ -357,7 +357,7 @@ class AggSuite(Suite):
     nontrivial_rule = "at least 2 sources and at least 3 values consumed, or an asynchronous completion, exception or early destruction"
 
     def gen_cases(self, rng, tier):
-        n = 30000 if tier == "quick" else 500000
+        n = 20000 if tier == "quick" else 500000
         cases = []
         for i in range(n):
             r = rng.random()
@@ -491,6 +491,10 @@ class AggSuite(Suite):
                     msgs.append("hang: `%s` never returned although the sources could serve it (no value delivered, "
                                 "aggregate neither ended nor was destroyed)" % op)
                 break
+            if "abort" in head[1:]:
+                if first_illegal(case["lines"], opi) is None:
+                    msgs.append("crash: `%s` ran into a library assertion (abort); replay to see it on stderr" % op)
+                break
             p = parse_p(head)
             if p is not None and len(p) == n:
                 pos = p
@@ -622,6 +626,8 @@ class StressSuite(Suite):
         limit = int(w[1])
         if not out or not out[0].startswith("stress ") or "hang" in out[0].split():
             return ["hang: the consumer never got its values although the sources were being completed"]
+        if "abort" in out[0].split():
+            return ["crash: the stress run ran into a library assertion (abort)"]
         f = dict(FACT_RE.findall(out[0]))
         num = lambda k: int(f.get(k, "0"))
         if num("dup"):
